@@ -22,3 +22,14 @@ package gdef
 //@     free_invariant offs <= 4294967295   // more than 4 GiB of coverage tables: out of scope (A-MEM)
 //@   loop 2
 //@     invariant len(buf) >= 14 && (isnil(buf) || fresh(buf))
+
+// Read: total on arbitrary bytes - no panic, both loops terminate, allocation
+// bounded by the 16-bit mark glyph set count; reader faults are returned.
+//@ func Read(r parser.ReadSeekSizer) (table *Table, err error)   props: C08 C02 C18
+//@   requires r != nil && rpos(r) == 0 && fsize(r) >= 0 && fsize(r) <= 9223372036854775807
+//@   ensures err == nil ==> table != nil
+//@   ensures faults(r) > old(faults(r)) ==> err != nil
+//@   loop 0
+//@     invariant parser.inv(p) && p.r == r && fresh(coverageOffsets) && len(coverageOffsets) == markGlyphSetCount && faults(r) <= old(faults(r)) && table != nil && fresh(table) && pos >= 0
+//@   loop 1
+//@     invariant parser.inv(p) && p.r == r && len(coverageOffsets) == markGlyphSetCount && len(table.MarkGlyphSets) == markGlyphSetCount && fresh(table.MarkGlyphSets) && faults(r) <= old(faults(r)) && table != nil && fresh(table) && pos >= 0
